@@ -150,6 +150,7 @@ def execute(sc):
       sigs.add(sig)
       viols.append({'clause': clause, 'signature': sig, 'message': msg})
 
+  fedsim._ALG_CACHE.clear()   # fresh algorithm objects per scenario (replayability under hidden state)
   is_agg = sc['target'] == 'agg'
   if is_agg:
     a = sc['agg']
